@@ -14,7 +14,8 @@ MUT = "/tmp/mut"
 def src_of(pid, n):
     """(directory, file number) of mutant n: 1,2 = round 1 (out1/), 3,4 = round 2 (out2/), 5,6 = round 3 (out3/), 7,8 = round 4 (out/)."""
     if n >= 7:
-        return f"{MUT}/{pid}/out", n - 6
+        d = f"{MUT}/{pid}/out4"
+        return (d if os.path.exists(d) else f"{MUT}/{pid}/out"), n - 6
     if n >= 5:
         d = f"{MUT}/{pid}/out3"
         return (d if os.path.exists(d) else f"{MUT}/{pid}/out"), n - 4
